@@ -408,9 +408,12 @@ theorem sim_mvTail (sdir : List Name) (sname : Name) (ddir : List Name) (dname :
       cases kd with
       | dir =>
         simp only [mvTail, h5] at h ⊢
-        have := (sim_mvGo sdir sname nd (ddir ++ [dname]) sname).ok _ a (by rw [v5]; exact .inr hP) h
-        rw [v5] at this
-        simp [smvTail, s5, this]
+        by_cases hself : sdir ++ [sname] = ddir ++ [dname]
+        · simp [hself] at h
+        · simp only [hself, if_false] at h ⊢
+          have := (sim_mvGo sdir sname nd (ddir ++ [dname]) sname).ok _ a (by rw [v5]; exact .inr hP) h
+          rw [v5] at this
+          simp [smvTail, s5, this, hself]
       | file =>
         simp only [mvTail, h5] at h ⊢
         cases hU : (atPath ddir (actUnlink dname) (atPath ddir (actChild dname) l).l).res with
@@ -443,9 +446,13 @@ theorem sim_mvTail (sdir : List Name) (sname : Name) (ddir : List Name) (dname :
       cases kd with
       | dir =>
         simp only [mvTail, h5] at h ⊢
-        have := (sim_mvGo sdir sname nd (ddir ++ [dname]) sname).err _ e (by rw [v5]; exact .inr hP) h
-        rw [v5] at this
-        simp [smvTail, s5, this.1, this.2]
+        by_cases hself : sdir ++ [sname] = ddir ++ [dname]
+        · simp [hself] at h
+          simp [smvTail, s5, hself, v5, ← h]
+        · simp only [hself, if_false] at h ⊢
+          have := (sim_mvGo sdir sname nd (ddir ++ [dname]) sname).err _ e (by rw [v5]; exact .inr hP) h
+          rw [v5] at this
+          simp [smvTail, s5, this.1, this.2, hself]
       | file =>
         simp only [mvTail, h5] at h ⊢
         cases hU : (atPath ddir (actUnlink dname) (atPath ddir (actChild dname) l).l).res with
@@ -484,9 +491,14 @@ theorem sim_mv (src dst : Path) : Sim (mv false src dst) (smv src dst) := by
   refine simOn_andThen ((atPath_sim sim_isDir _).on _) (query_atPath query_isDir _) fun _ => ?_
   refine simOn_andThen ((atPath_sim (sim_child _) _).on _) (query_atPath (query_child _) _) fun kd => ?_
   refine simOn_andThen ((atPath_sim sim_getNode _).on _) (query_atPath query_get _) fun nd => ?_
-  refine (sim_mvTail _ _ _ _ nd).mono ?_
-  intro t ht
-  obtain ⟨m, kids, v, hg, hk, _⟩ := child_spec ht.1.2
-  exact ⟨v, N.get_snoc.mpr ⟨m, kids, hg, hk⟩⟩
+  by_cases hself : nd.kind = .dir ∧
+      (src.split.1 ++ [src.split.2]) <+: (if dst.trailing then dst.comps else dst.split.1)
+  · simp only [hself, and_self, if_true]
+    exact ⟨fun l a _ h => by simp at h, fun l e _ h => by simp at h; simp [← h]⟩
+  · simp only [hself, if_false]
+    refine (sim_mvTail _ _ _ _ nd).mono ?_
+    intro t ht
+    obtain ⟨m, kids, v, hg, hk, _⟩ := child_spec ht.1.2
+    exact ⟨v, N.get_snoc.mpr ⟨m, kids, hg, hk⟩⟩
 
 end C19
